@@ -105,7 +105,7 @@ def invalidate_on_write(ltree, dtree, btree):
 
 
 def del_index_normalized(ltree):
-  """`List.__delitem__` reports a negative index as the position (fix C09-F110):
+  """`List.__delitem__` reports a negative index as the position (fix C09-F112):
   `indices = [index + len(self) if index < 0 else index]`."""
   fn = common.find_func(common.find_class(ltree, 'List'), '__delitem__')
   src = ast.unparse(fn)
